@@ -626,6 +626,34 @@ func (g *gen) stmtRaw(db *MDB, t *MTable) Stmt {
 		func() string { return "CREATE TABLE " + t.Name + " (k INT)" },
 		func() string { return "CREATE TABLE x_" + t.Name + " ()" },
 		func() string { return fmt.Sprintf("SELECT %s AS z, count(*) FROM %s GROUP BY z ORDER BY z", col(), t.Name) },
+		func() string { return fmt.Sprintf("SELECT * FROM %s a JOIN %s b ON a.k = b.k", t.Name, t.Name) },
+		func() string { return fmt.Sprintf("SELECT a.%s, b.%s FROM %s a JOIN %s b ON a.%s = b.%s", col(), col(), t.Name, t.Name, col(), col()) },
+		func() string { return fmt.Sprintf("SELECT * FROM %s WHERE %s", t.Name, col()) },
+		func() string { return fmt.Sprintf("SELECT * FROM %s WHERE %s", t.Name, lit()) },
+		func() string { return fmt.Sprintf("SELECT * FROM %s WHERE %s AND %s", t.Name, col(), col()) },
+		func() string { return fmt.Sprintf("SELECT * FROM %s WHERE %s OR %s = %s", t.Name, col(), col(), lit()) },
+		func() string { return fmt.Sprintf("SELECT * FROM %s a LEFT JOIN %s b ON a.k = b.k WHERE b.%s %s %s", t.Name, other.Name, other.Cols[g.r.Intn(len(other.Cols))].Name, op(), lit()) },
+		func() string { c := other.Cols[g.r.Intn(len(other.Cols))].Name; return fmt.Sprintf("SELECT b.%s, count(*) FROM %s a LEFT JOIN %s b ON a.k = b.k GROUP BY b.%s", c, t.Name, other.Name, c) },
+		func() string { c := other.Cols[g.r.Intn(len(other.Cols))].Name; return fmt.Sprintf("SELECT avg(b.%s) FROM %s a LEFT JOIN %s b ON a.k = b.k", c, t.Name, other.Name) },
+		func() string { c := other.Cols[g.r.Intn(len(other.Cols))].Name; return fmt.Sprintf("SELECT count(b.%s), avg(a.k) FROM %s a RIGHT JOIN %s b ON a.%s = b.k", c, t.Name, other.Name, col()) },
+		func() string { return fmt.Sprintf("SELECT * FROM %s a LEFT JOIN %s b ON a.k = b.k ORDER BY b.k DESC", t.Name, other.Name) },
+		func() string { return fmt.Sprintf("SELECT * FROM %s a JOIN %s b ON a.k = b.k JOIN %s c ON c.k = b.k", t.Name, other.Name, t.Name) },
+		func() string { return fmt.Sprintf("SELECT * FROM %s a JOIN %s b ON 1", t.Name, other.Name) },
+		func() string { return fmt.Sprintf("SELECT * FROM %s LIMIT 0", t.Name) },
+		func() string { return fmt.Sprintf("SELECT * FROM %s OFFSET %d", t.Name, g.r.Intn(3000)) },
+		func() string { return fmt.Sprintf("SELECT * FROM %s ORDER BY %s LIMIT %d OFFSET %d", t.Name, col(), g.r.Intn(4), g.r.Intn(40)) },
+		func() string { return fmt.Sprintf("SELECT count(*), %s FROM %s", col(), t.Name) },
+		func() string { return fmt.Sprintf("SELECT %s FROM %s GROUP BY %s", col(), t.Name, col()) },
+		func() string { return fmt.Sprintf("SELECT count(nosuch) FROM %s", t.Name) },
+		func() string { return fmt.Sprintf("SELECT avg(%s), avg(%s), count(%s) FROM %s GROUP BY %s", col(), col(), col(), t.Name, col()) },
+		func() string { return fmt.Sprintf("SELECT * FROM %s ORDER BY nosuch", t.Name) },
+		func() string { return fmt.Sprintf("SELECT %s, %s FROM %s ORDER BY %s DESC, %s", col(), col(), t.Name, col(), col()) },
+		func() string { return fmt.Sprintf("DELETE FROM %s WHERE nosuch = 1", t.Name) },
+		func() string { return fmt.Sprintf("DELETE FROM %s WHERE %s %s %s", t.Name, col(), op(), col()) },
+		func() string { return fmt.Sprintf("UPDATE %s SET %s = %s WHERE nosuch %s %s", t.Name, col(), lit(), op(), lit()) },
+		func() string { return fmt.Sprintf("SELECT %s.%s FROM %s", other.Name, col(), t.Name) },
+		func() string { return fmt.Sprintf("SELECT x.%s FROM %s", col(), t.Name) },
+		func() string { return fmt.Sprintf("SELECT * FROM %s, %s", t.Name, other.Name) },
 	}
 	for {
 		q := tmpl[g.r.Intn(len(tmpl))]()
